@@ -1,6 +1,9 @@
 """C15 - pickle round trip of a model is the identity.
 
-Decides the structural half: what is handed to pickle reconstructs the object.
+Decides the structural half: what is handed to pickle reconstructs the object.  The hooks that ``@unevaluated``
+installs (``__getnewargs__`` or a state hook) and the pickle hook of the deprecated base class are INTERPRETED on
+model instances (``sa/rules.object_exec``, see C14) and compared with what pickle needs; how they are spelt is
+invisible.  A shape outside the interpreted subset is an ANALYSIS-ERROR, never a violation.
 """
 
 from __future__ import annotations
@@ -8,18 +11,22 @@ from __future__ import annotations
 import ast
 
 from ..dataflow import RD
-from ..exprmodel import expression_classes, handwritten_expr_classes
+from ..exprmodel import IMPLEMENT_NEW, expression_classes, handwritten_expr_classes
 from ..loader import AnalysisError, ClassInfo, FuncInfo, Tree, ancestors, unparse, walk_function
 from ..report import Check
-from .c14 import check_shallow_hooks
+from ..rules import MObj, ModelError, ModelRaise, MRef, object_exec
+from .c14 import DecoratorWorld, _interpret, _not_iterable, _sig, check_shallow_hooks, installed_by_model
 
 PID = "C15"
 PICKLE_HOOKS = {"__reduce__", "__reduce_ex__", "__getstate__", "__setstate__", "__getnewargs__", "__getnewargs_ex__"}
+_TUPLE_NAMES = {"sp.Tuple", "Tuple", "sympy.Tuple"}
 
 
-def new_args_arity(tree: Tree, fn: FuncInfo) -> tuple[int, bool] | None:
+# ---------------------------------------------------------------------------- R-NEWARGS (hand-written classes)
+def new_args_arity(tree: Tree, fn: FuncInfo) -> tuple[int, bool] | None | str:
     """Arity of ``self.args`` as created by ``sp.Expr.__new__(cls, a, b, *rest)`` inside a
-    hand-written ``__new__``: (fixed positional count, variadic?)."""
+    hand-written ``__new__``: (fixed positional count, variadic?).  None: no such call; a string: the reason why the
+    arity of a call cannot be determined."""
     rd = RD(fn.node)
     results = []
     for node in walk_function(fn.node):
@@ -30,12 +37,11 @@ def new_args_arity(tree: Tree, fn: FuncInfo) -> tuple[int, bool] | None:
         fixed, variadic = 0, False
         for a in node.args[1:]:
             if isinstance(a, ast.Starred):
-                n = _tuple_len(rd, a.value)
+                n = _tuple_len(rd, a.value, fn, 0, tree)
                 if n is None:
-                    variadic = True
-                else:
-                    fixed += n[0]
-                    variadic |= n[1]
+                    return f"cannot determine the length of `*{unparse(a.value)[:40]}` in `{unparse(node)[:60]}`"
+                fixed += n[0]
+                variadic |= n[1]
             else:
                 fixed += 1
         results.append((fixed, variadic))
@@ -47,26 +53,81 @@ def new_args_arity(tree: Tree, fn: FuncInfo) -> tuple[int, bool] | None:
     return fixed, variadic
 
 
-def _tuple_len(rd: RD, expr: ast.AST, depth: int = 0) -> tuple[int, bool] | None:
-    if depth > 5:
+def _tuple_len(rd: RD, expr: ast.AST, fn: FuncInfo, depth: int = 0, tree: Tree | None = None, bound: dict | None = None) -> tuple[int, bool] | None:
+    """(number of fixed elements, open-ended?) of a sequence-valued expression; None: unknown."""
+    if depth > 16:
         return None
-    if isinstance(expr, ast.Call) and expr.args and isinstance(expr.func, (ast.Attribute, ast.Name)):
+    if isinstance(expr, ast.Call) and isinstance(expr.func, (ast.Attribute, ast.Name)) and not expr.keywords:
         name = expr.func.attr if isinstance(expr.func, ast.Attribute) else expr.func.id
-        if name in {"sympify", "_sympify", "tuple", "list", "Tuple"} and len(expr.args) == 1:
-            return _tuple_len(rd, expr.args[0], depth + 1)
+        if name in {"sympify", "_sympify", "tuple", "list", "sorted", "reversed"} and len(expr.args) == 1:
+            return _tuple_len(rd, expr.args[0], fn, depth + 1, tree, bound)
+        if name == "Tuple":
+            return _tuple_len(rd, ast.Tuple(elts=list(expr.args), ctx=ast.Load()), fn, depth + 1, tree, bound)
+        if name == "map" and len(expr.args) == 2:
+            return _tuple_len(rd, expr.args[1], fn, depth + 1, tree, bound)
+    if isinstance(expr, ast.Call) and tree is not None and getattr(expr, "_module", None) is not None:
+        # a helper of the package that builds the sequence: what it returns
+        callee = tree.funcs.get(tree.callee(expr, tree.func_of(expr) or fn) or "")
+        if callee is not None and callee is not fn and depth < 12:
+            crd = RD(callee.node)
+            # what the caller passes for the helper's parameters (a sequence-valued argument; the extra positional arguments of *args)
+            ca = callee.node.args
+            named = [p.arg for p in [*ca.posonlyargs, *ca.args]]
+            if callee.cls is not None and named[:1] in (["self"], ["cls"]) and isinstance(expr.func, ast.Attribute):
+                named = named[1:]
+            passed: dict[str, tuple[int, bool] | None] = {}
+            if not any(isinstance(a, ast.Starred) for a in expr.args):
+                for p, a in zip(named, expr.args):
+                    passed[p] = _tuple_len(rd, a, fn, depth + 1, tree, bound)
+                if ca.vararg is not None:
+                    passed[ca.vararg.arg] = (max(0, len(expr.args) - len(named)), False)
+            elif ca.vararg is not None:
+                passed[ca.vararg.arg] = _tuple_len(rd, ast.Tuple(elts=list(expr.args[len(named):]), ctx=ast.Load()), fn, depth + 1, tree, bound) if len(expr.args) >= len(named) and not any(isinstance(a, ast.Starred) for a in expr.args[: len(named)]) else None
+            for k in expr.keywords:
+                if k.arg:
+                    passed[k.arg] = _tuple_len(rd, k.value, fn, depth + 1, tree, bound)
+            rets = [r for r in walk_function(callee.node, nested=False) if isinstance(r, ast.Return) and r.value is not None]
+            lens = {_tuple_len(crd, r.value, callee, depth + 1, tree, passed) for r in rets}
+            if len(lens) == 1 and None not in lens:
+                return lens.pop()
+    if isinstance(expr, (ast.ListComp, ast.GeneratorExp)) and len(expr.generators) == 1 and not expr.generators[0].ifs:
+        return _tuple_len(rd, expr.generators[0].iter, fn, depth + 1, tree, bound)
     if isinstance(expr, (ast.Tuple, ast.List)):
         fixed, variadic = 0, False
         for e in expr.elts:
             if isinstance(e, ast.Starred):
-                variadic = True
+                inner = _tuple_len(rd, e.value, fn, depth + 1, tree, bound)
+                if inner is None:
+                    return None
+                fixed += inner[0]
+                variadic |= inner[1]
             else:
                 fixed += 1
         return fixed, variadic
+    if isinstance(expr, ast.BinOp) and isinstance(expr.op, ast.Add):
+        left, right = _tuple_len(rd, expr.left, fn, depth + 1, tree, bound), _tuple_len(rd, expr.right, fn, depth + 1, tree, bound)
+        if left is None or right is None:
+            return None
+        return left[0] + right[0], left[1] or right[1]
     if isinstance(expr, ast.Name):
+        if bound is not None and expr.id in bound and all(d.kind == "param" for d in rd.reaching(expr)):
+            return bound[expr.id]  # a parameter of a helper: what the caller passed
+        if fn.node.args.vararg is not None and expr.id == fn.node.args.vararg.arg and all(d.kind == "param" for d in rd.reaching(expr)):
+            return 0, True  # the *args of __new__ itself: any number
         defs = rd.reaching(expr)
-        lens = {_tuple_len(rd, d.value, depth + 1) if d.value is not None and d.kind == "assign" else None for d in defs}
-        if len(lens) == 1:
-            return lens.pop()
+        grown = any(isinstance(n, ast.Call) and isinstance(n.func, ast.Attribute) and n.func.attr in {"append", "extend", "insert"} and isinstance(n.func.value, ast.Name) and n.func.value.id == expr.id
+                    for n in walk_function(fn.node)) or any(isinstance(n, ast.AugAssign) and isinstance(n.target, ast.Name) and n.target.id == expr.id for n in walk_function(fn.node))
+        lens = set()
+        for d in defs:
+            if d.kind in {"store", "aug"}:
+                continue  # the growth of an accumulator (judged by `grown`)
+            n = _tuple_len(rd, d.value, fn, depth + 1, tree, bound) if d.value is not None and d.kind == "assign" and d.index is None else None
+            if n is None and d.kind == "assign" and isinstance(d.value, ast.Call) and isinstance(d.value.func, ast.Name) and d.value.func.id in {"list", "tuple"} and not d.value.args:
+                n = (0, False)
+            lens.add(n)
+        if len(lens) == 1 and None not in lens:
+            fixed, variadic = lens.pop()
+            return fixed, variadic or grown  # a list that is grown element by element (append in a loop): open-ended
         return None
     return None
 
@@ -77,95 +138,248 @@ def signature_accepts(fn: FuncInfo, fixed: int, variadic: bool) -> str | None:
     n_defaults = len(a.defaults)
     required = len(pos) - n_defaults
     has_var = a.vararg is not None
-    if fixed < required:
-        return f"__new__ requires {required} positional arguments but self.args has {fixed}{'+' if variadic else ''}"
+    if fixed < required and not variadic:
+        return f"__new__ requires {required} positional arguments but self.args has {fixed}"
     if not has_var and (fixed > len(pos) or variadic):
         return f"__new__ accepts at most {len(pos)} positional arguments but self.args has {fixed}{'+' if variadic else ''}"
     return None
 
 
-def check_state_hook(ctx: Check, tree: Tree, hooks: dict) -> None:
+# ---------------------------------------------------------------------------- R-STATE
+def check_state_hook(ctx: Check, tree: Tree) -> None:
     """Without a custom __getnewargs__ the non-SymPy attributes travel as instance state:
     the state hook must hand out exactly those attributes - never SymPy's own slots, which
-    contain the cached hash (`_mhash`, process dependent under hash randomisation)."""
-    impl = tree.func("ampform.sympy._decorator::_implement_new_method")
-    state = {k: v for k, v in hooks.items() if k in {"__getstate__", "__reduce__", "__reduce_ex__", "__getnewargs_ex__"}}
-    if not state:
+    contain the cached hash (`_mhash`, process dependent under hash randomisation).  Decided on the model: the
+    installed hook is interpreted on an instance whose class has the slots of its non-SymPy fields and whose base
+    (sympy.Basic) has the slots ``_mhash``, ``_args``, ``_assumptions``; the state it returns is inspected."""
+    world = DecoratorWorld.of(tree)
+    table = installed_by_model(tree)
+    state_attrs = [a for a in ("__getstate__", "__reduce__", "__reduce_ex__", "__getnewargs_ex__") if a in table]
+    if not state_attrs:
         raise AnalysisError("the decorator installs neither __getnewargs__ nor a state hook: pickling of non-SymPy attributes is outside the rule's grammar")
-    for attr, (value, cond, resolved) in state.items():
-        fn = tree.funcs.get(resolved or "")
-        if fn is None:
-            raise AnalysisError(f"state hook {attr} = {unparse(value)} cannot be resolved")
-        txt = unparse(fn.node)
-        uses_slots = "__slots__" in txt
-        walks_mro = "__mro__" in txt or ".mro()" in txt
-        uses_fields = "_get_fields(" in txt or "dataclasses.fields(" in txt or "get_sympy_fields(" in txt
-        key = f"{impl.qual}::cls.{attr}"
-        if uses_slots and walks_mro:
-            ctx.violation("R-STATE", key + "::hands-out-hash-cache", tree.loc(fn.node),
-                          f"cls.{attr} = {unparse(value)}: {fn.qual} collects the values of __slots__ along the MRO, which include sympy.Basic's cached hash `_mhash`",
+    basic_slots = ("_mhash", "_args", "_assumptions")
+    for attr in state_attrs:
+        leaks, incomplete, fine = [], [], 0
+        undecided: list[str] = []
+        name = where = ""
+        for sig, hook in sorted(table[attr].items()):
+            cls = world.model_class(sig)
+            name, where = world.describe(hook)
+            values = [MObj(f"a{i}", {"__iter__": _not_iterable}, kinds={"expr"} if s else {"plain"}, open=False) for i, s in enumerate(sig)]
+            basic = MObj("class sympy.Basic", {"__slots__": basic_slots, "__name__": "Basic"}, kinds={"class"}, open=False)
+            expr = MObj("class sympy.Expr", {"__slots__": (), "__name__": "Expr"}, kinds={"class"}, open=False)
+            me = MObj("self", {f"a{i}": v for i, v in enumerate(values)}, kinds={"expr"}, open=False)
+            sympy_values = tuple(v for v, s in zip(values, sig) if s)
+            me.attrs.update({"__class__": cls, "args": sympy_values, "_args": sympy_values, "_mhash": 1234567, "_assumptions": MObj("assumptions", open=False), "__iter__": _not_iterable})
+            cls.attrs["__mro__"] = (cls, expr, basic, ("builtin", "object"))
+            ex = world.exec()
+            got = _interpret(f"cls.{attr}", lambda ex=ex, hook=hook, me=me, attr=attr: ex.apply(hook, [me, *([2] if attr == "__reduce_ex__" else [])], {}))
+            label = f"fields <{_sig(sig)}>"
+            if isinstance(got, tuple) and got and got[0] == "raises":
+                raise AnalysisError(f"state hook cls.{attr} = {name}: {got[1]} on the model instance ({label})")
+            states = [got] if attr == "__getstate__" else list(got[2:3]) if isinstance(got, tuple) and attr.startswith("__reduce") else [got[1]] if isinstance(got, tuple) and len(got) == 2 else [got]
+            flat: dict = {}
+            for st in states:
+                for part in (st if isinstance(st, tuple) else (st,)):
+                    if isinstance(part, dict):
+                        flat.update(part)
+                    elif part is not None:
+                        raise AnalysisError(f"state hook cls.{attr} = {name}: cannot tell which attributes are handed to pickle (returns {got!r} for {label})")
+            handed = [k for k in flat if k in basic_slots]
+            non_sympy = [f"a{i}" for i, s in enumerate(sig) if not s]
+            if handed:
+                leaks.append(f"{label}: the state contains {handed}")
+            elif attr == "__getstate__" and any(n not in flat for n in non_sympy):
+                incomplete.append(f"{label}: the state {sorted(flat)} lacks {[n for n in non_sympy if n not in flat]}")
+            elif attr == "__getnewargs_ex__":
+                # pickle calls cls.__new__(cls, *args, **kwargs) with the pair: the rebuilt model instance must carry every value again
+                new_hook = cls.installed.get("__new__")  # type: ignore[attr-defined]
+                if not (isinstance(got, tuple) and len(got) == 2 and isinstance(got[0], (tuple, list)) and isinstance(got[1], dict)) or new_hook is None:
+                    raise AnalysisError(f"state hook cls.{attr} = {name}: returns {got!r} for {label}, not a pair (args, kwargs)")
+                ex2 = world.exec()
+                rebuilt = _interpret("cls.__new__", lambda ex2=ex2, got=got, new_hook=new_hook, cls=cls: ex2.apply(new_hook, [cls, *got[0]], dict(got[1])))
+                same = isinstance(rebuilt, MObj) and all(rebuilt.attrs.get(f"a{i}") is v for i, v in enumerate(values)) and \
+                    len(rebuilt.attrs.get("args", ())) == len(sympy_values) and all(x is y for x, y in zip(rebuilt.attrs.get("args", ()), sympy_values))
+                if same:
+                    fine += 1
+                else:
+                    incomplete.append(f"{label}: cls.__new__(cls, *args, **kwargs) with the returned pair gives {rebuilt!r}, not an instance with the same field values")
+            elif attr.startswith("__reduce"):
+                undecided.append(f"{label}: returns {got!r}")
+            else:
+                fine += 1
+        key = f"{IMPLEMENT_NEW}::cls.{attr}"
+        if leaks:
+            ctx.violation("R-STATE", key + "::hands-out-hash-cache", where,
+                          f"cls.{attr} = {name.split('::')[-1]}: the state handed to pickle includes the slots of sympy.Basic, among them the cached hash `_mhash` ({leaks[0]})",
                           "Basic.__setstate__ restores the hash of the dumping process: after a cross-process load (different PYTHONHASHSEED) equal expressions hash differently, dict/set lookups and xreplace on the loaded model silently miss")
-        elif uses_fields or (uses_slots and not walks_mro):
-            ctx.ok("R-STATE", tree.loc(fn.node), f"cls.{attr} = {unparse(value)}: state is built from the class's own non-SymPy fields")
-        else:
-            raise AnalysisError(f"state hook {fn.qual}: cannot tell which attributes are handed to pickle")
+        if incomplete:
+            ctx.violation("R-STATE", key + "::incomplete-state", where, f"cls.{attr} = {name.split('::')[-1]}: the state does not carry every non-SymPy attribute ({incomplete[0]})")
+        if not leaks and not incomplete and undecided:
+            raise AnalysisError(f"state hook cls.{attr} = {name}: whether the reduction rebuilds an equal instance is outside the rule's model ({undecided[0]})")
+        if not leaks and not incomplete:
+            ctx.ok("R-STATE", where, f"cls.{attr} = {name.split('::')[-1]}: on {fine} model instances the state is built from the class's own non-SymPy fields")
+
+
+# ---------------------------------------------------------------------------- R-ATTRIDENTITY
+_VALUE_DECORATORS = {"attrs.frozen", "attr.frozen", "attrs.define", "attr.define", "attr.s", "attrs.mutable", "attr.attrs", "dataclasses.dataclass"}
+_VALUE_BASES = {"typing.NamedTuple", "NamedTuple", "tuple", "str", "int", "float", "frozenset", "enum.Enum", "enum.IntEnum", "enum.Flag", "enum.StrEnum"}
+_NEUTRAL_BASES = {"object", "typing.Protocol", "typing.Generic", "abc.ABC", "typing_extensions.Protocol"}
+
+
+def _instance_identity(tree: Tree, cls: ClassInfo) -> str:
+    """'value' (instances compare by value), 'identity' (plain class: by identity), 'unknown'."""
+    if tree.lookup_method(cls, "__eq__") is not None and tree.lookup_method(cls, "__hash__") is not None:
+        return "value"
+    for c in tree.mro(cls):
+        if any(t in _VALUE_DECORATORS for t, _ in c.decorators):
+            return "value"
+    ext = [b.split("[")[0] for b in tree.external_bases(cls)]
+    if any(b in _VALUE_BASES for b in ext):
+        return "value"
+    if tree.lookup_method(cls, "__eq__") is not None:
+        return "unknown"  # __eq__ without __hash__: unhashable, keyed by str()
+    if all(b in _NEUTRAL_BASES for b in ext) and not any(c.decorators for c in tree.mro(cls)):
+        return "identity"
+    return "unknown"
 
 
 def check_attribute_identity(ctx: Check, tree: Tree) -> None:
     """Values given to non-SymPy fields take part in equality/hash through their identity
     and are pickled with the expression.  A class or function is pickled by reference; an
-    instance of a class without __eq__/__hash__ comes back as a different, unequal object."""
+    instance of a class without __eq__/__hash__ comes back as a different, unequal object; a lambda or a function
+    defined inside a function cannot be pickled at all."""
     classes = expression_classes(tree)
     names = {f.name for c in classes.values() for f in c.non_sympy_fields if f.name != "name"}
     if not names:
         raise AnalysisError("no non-SymPy fields found")
-    n = 0
-    for q, fn in [*tree.funcs.items(), *[(m.name, None) for m in ()]]:
-        pass
-    calls = []
+    sites: list[tuple] = []
     for mod in tree.modules.values():
         if not mod.name.startswith("ampform"):
             continue
         for node in ast.walk(mod.tree):
-            if isinstance(node, ast.Call):
-                for k in node.keywords:
-                    if k.arg in names:
-                        calls.append((mod, node, k))
-    for mod, call, kw in calls:
-        n += 1
-        val = kw.value
-        where = tree.loc(call)
-        what = f"{unparse(call.func)}(..., {kw.arg}={unparse(val)[:50]})"
-        if isinstance(val, ast.Call):
-            target = tree.resolve(mod, val.func, tree.func_of(call))
-            if target in tree.classes:
-                cls = tree.classes[target]
-                has_eq = tree.lookup_method(cls, "__eq__") is not None and tree.lookup_method(cls, "__hash__") is not None
-                value_class = any(t in {"attrs.frozen", "attr.frozen"} or ("dataclass" in t and "frozen=True" in unparse(d)) for t, d in cls.decorators)
-                ctx.verdict(has_eq or value_class, "R-ATTRIDENTITY", f"{mod.name}::{what}", where,
-                            f"{what}: an instance of {cls.name} is used as a non-SymPy attribute" + ("" if has_eq or value_class else " but the class defines no __eq__/__hash__"),
-                            None if has_eq or value_class else "the instance is pickled by value: the loaded expression holds a new object, so loaded != original (equality and hash of the expression go through the attribute)")
+            if not isinstance(node, ast.Call):
                 continue
-        ctx.ok("R-ATTRIDENTITY", where, f"{what}: class / function / forwarded value (pickled by reference)")
-    ctx.stats["non_sympy_attribute_sites"] = n
-    if n < 5:
-        raise AnalysisError(f"only {n} call sites pass a non-SymPy attribute (10+ confirmed)")
+            seen = set()
+            for k in node.keywords:
+                if k.arg in names:
+                    sites.append((mod, node, k.arg, k.value))
+                    seen.add(k.arg)
+            callee = tree.callee(node, tree.func_of(node)) if getattr(node, "_module", None) is not None else None
+            ec = classes.get(callee or "")
+            if ec is not None and not any(isinstance(a, ast.Starred) for a in node.args):
+                for f, a in zip(ec.fields, node.args):  # the same attribute given positionally
+                    if f.name in names and f.name not in seen:
+                        sites.append((mod, node, f.name, a))
+    undecided = []
+    for mod, call, field, val in sites:
+        where = tree.loc(call)
+        what = f"{unparse(call.func)}(..., {field}={unparse(val)[:50]})"
+        verdicts = _value_identity(tree, mod, tree.func_of(call), val, 0)
+        bad = [v for v in verdicts if v[0] == "bad"]
+        unknown = [v for v in verdicts if v[0] == "unknown"]
+        if bad:
+            ctx.violation("R-ATTRIDENTITY", f"{mod.name}::{what}", where, f"{what}: {bad[0][1]}", bad[0][2])
+        elif unknown:
+            undecided.append(f"{where}: {what}: {unknown[0][1]}")
+        else:
+            ctx.ok("R-ATTRIDENTITY", where, f"{what}: {verdicts[0][1] if verdicts else 'forwarded value'}")
+    ctx.stats["non_sympy_attribute_sites"] = len(sites)
+    if undecided:
+        raise AnalysisError("; ".join(undecided[:3]))
+    if len(sites) < 3:
+        raise AnalysisError(f"only {len(sites)} call sites pass a non-SymPy attribute (10+ confirmed)")
 
 
+def _value_identity(tree: Tree, mod, scope: FuncInfo | None, val: ast.AST, depth: int) -> list[tuple]:
+    """[(verdict 'ok' | 'bad' | 'unknown', what, why)] for a value given to a non-SymPy field."""
+    by_value = "the instance is pickled by value: the loaded expression holds a new object, so loaded != original (equality and hash of the expression go through the attribute)"
+    if isinstance(val, ast.Constant):
+        return [("ok", "a constant", None)]
+    if isinstance(val, ast.Lambda):
+        return [("bad", "a lambda is used as a non-SymPy attribute", "pickle stores functions by module and qualified name: a lambda cannot be pickled (`Can't pickle <lambda>`), dumps() of every expression that holds it raises")]
+    if isinstance(val, ast.IfExp):
+        return _value_identity(tree, mod, scope, val.body, depth + 1) + _value_identity(tree, mod, scope, val.orelse, depth + 1)
+    if isinstance(val, ast.BoolOp):
+        return [v for e in val.values for v in _value_identity(tree, mod, scope, e, depth + 1)]
+    if isinstance(val, ast.Attribute):
+        target = tree.resolve(mod, val, scope)
+        if target in tree.classes or target in tree.funcs and tree.funcs[target].outer is None:
+            return [("ok", "a class / function of the package (pickled by reference)", None)]
+        return [("ok", "an attribute value that is forwarded", None)]
+    if isinstance(val, ast.Name):
+        target = tree.resolve(mod, val, scope)
+        if target in tree.classes:
+            return [("ok", "a class (pickled by reference)", None)]
+        if target in tree.funcs:
+            if tree.funcs[target].outer is not None:
+                return [("bad", f"the function `{val.id}` defined inside `{tree.funcs[target].outer.name}()` is used as a non-SymPy attribute",
+                         "pickle cannot find a function-local function by module + qualified name: dumps() of every expression that holds it raises")]
+            return [("ok", "a module-level function (pickled by reference)", None)]
+        if target is not None:
+            return [("ok", "an imported / module-level object (pickled by reference)", None)]
+        if scope is not None and depth < 4:
+            top = scope
+            while top.outer is not None:
+                top = top.outer
+            rd = RD(top.node)
+            try:
+                defs = rd.reaching(val)
+            except Exception:  # noqa: BLE001
+                defs = set()
+            out = []
+            for d in defs:
+                if d.kind == "param":
+                    out.append(("ok", "a forwarded parameter", None))
+                elif d.kind == "assign" and d.value is not None and d.index is None:
+                    out += _value_identity(tree, mod, scope, d.value, depth + 1)
+                else:
+                    out.append(("ok", "a forwarded value", None))
+            if out:
+                return out
+        return [("ok", "a forwarded value", None)]
+    if isinstance(val, ast.Call):
+        target = tree.resolve(mod, val.func, scope)
+        if target in tree.classes:
+            cls = tree.classes[target]
+            kind = _instance_identity(tree, cls)
+            if kind == "value":
+                return [("ok", f"an instance of {cls.name}, which compares by value", None)]
+            if kind == "identity":
+                return [("bad", f"an instance of {cls.name} is used as a non-SymPy attribute but the class defines no __eq__/__hash__", by_value)]
+            return [("unknown", f"an instance of {cls.name}: the rule cannot tell how its instances compare (external base / decorator)", None)]
+        if target in {"typing.cast", "typing_extensions.cast"} and len(val.args) == 2:
+            return _value_identity(tree, mod, scope, val.args[1], depth + 1)
+        if target == "functools.partial":
+            return [("bad", "a functools.partial object is used as a non-SymPy attribute", "partial objects compare by identity and are pickled by value: the loaded expression is not equal to the original")]
+        if target in tree.funcs and depth < 3:
+            callee = tree.funcs[target]
+            rets = [r for r in walk_function(callee.node, nested=False) if isinstance(r, ast.Return) and r.value is not None]
+            if rets:
+                return [v for r in rets for v in _value_identity(tree, callee.module, callee, r.value, depth + 1)]
+        return [("unknown", f"the value of the call `{unparse(val)[:50]}` is outside the rule's grammar", None)]
+    return [("unknown", f"`{unparse(val)[:50]}` is outside the rule's grammar", None)]
+
+
+# ---------------------------------------------------------------------------- R-TOPLEVEL
 def check_toplevel_classes(ctx: Check, tree: Tree) -> None:
     """R-TOPLEVEL: pickle stores a class by module and __qualname__; an expression class that is
     defined inside a function (a class factory) has the qualname `factory.<locals>.Name` and
     cannot be looked up again: dumps() of any expression that contains an instance raises."""
     n_top = 0
     bad = []
+    expr_quals = set(expression_classes(tree)) | set(handwritten_expr_classes(tree))
     for mod in tree.modules.values():
         if not mod.name.startswith("ampform"):
             continue
         for node in ast.walk(mod.tree):
             if not isinstance(node, ast.ClassDef):
                 continue
-            is_expr = any(unparse(d).split("(")[0].endswith("unevaluated") for d in node.decorator_list) or any(
-                unparse(b) in {"sp.Expr", "sp.Basic", "sp.Function", "sp.Symbol", "NumPyPrintable", "sp.Sum", "sp.Integral", "sp.MatrixSymbol", "sp.Indexed", "sp.IndexedBase"} for b in node.bases)
+            scope = tree.func_of(node)
+            decorated = any((tree.resolve(mod, d.func if isinstance(d, ast.Call) else d, scope) or "").endswith("::unevaluated")
+                            or unparse(d).split("(")[0].endswith("unevaluated") for d in node.decorator_list)
+            bases = [tree.resolve(mod, b, scope) or unparse(b) for b in node.bases]
+            is_expr = decorated or any(b.startswith(("sympy.", "sp.")) or b in expr_quals or b.split("::")[-1] == "NumPyPrintable" for b in bases)
             if not is_expr:
                 continue
             enclosing = [a for a in ancestors(node) if isinstance(a, (ast.FunctionDef, ast.AsyncFunctionDef, ast.Lambda))]
@@ -183,6 +397,50 @@ def check_toplevel_classes(ctx: Check, tree: Tree) -> None:
         ctx.ok("R-TOPLEVEL", "src/ampform", f"all {n_top} expression classes of the package are defined at module (or class) level: picklable by reference")
 
 
+# ---------------------------------------------------------------------------- R-CANONICAL
+_INGREDIENTS = {"components", "amplitudes", "parameter_defaults", "kinematic_variables"}
+
+
+def _ingredient_stores(fn_node: ast.AST, rd: RD):
+    """(statement, attribute name, stored value) for ``X.<ingredient>[k] = v``, ``X.<ingredient>.update({k: v} / k=v)``,
+    ``X.<ingredient>.setdefault(k, v)`` - also through a local alias of the mapping."""
+    def ingredient(base: ast.AST) -> str | None:
+        if isinstance(base, ast.Name):  # a local alias `components = self.__ingredients.components`
+            adefs = [d for d in rd.reaching(base) if d.value is not None]
+            if len(adefs) == 1 and isinstance(adefs[0].value, ast.Attribute):
+                base = adefs[0].value
+        if isinstance(base, ast.Attribute) and base.attr in _INGREDIENTS:
+            return base.attr
+        return None
+
+    for st in walk_function(fn_node):
+        if isinstance(st, ast.Assign) and isinstance(st.targets[0], ast.Subscript):
+            name = ingredient(st.targets[0].value)
+            if name:
+                yield st, name, st.value
+        elif isinstance(st, ast.AugAssign) and isinstance(st.target, ast.Subscript):
+            name = ingredient(st.target.value)
+            if name:
+                yield st, name, st.value
+        elif isinstance(st, ast.Expr) and isinstance(st.value, ast.Call) and isinstance(st.value.func, ast.Attribute) and st.value.func.attr in {"update", "setdefault"}:
+            call = st.value
+            name = ingredient(call.func.value)
+            if not name:
+                continue
+            if call.func.attr == "setdefault" and len(call.args) == 2:
+                yield st, name, call.args[1]
+            elif call.func.attr == "update":
+                for a in call.args:
+                    if isinstance(a, ast.Dict):
+                        for v in a.values:
+                            yield st, name, v
+                    elif isinstance(a, ast.DictComp):
+                        yield st, name, a.value
+                for k in call.keywords:
+                    if k.arg:
+                        yield st, name, k.value
+
+
 def check_canonical_nodes(ctx: Check, tree: Tree) -> None:
     """R-CANONICAL: SymPy objects are pickled as (class, args) and rebuilt by calling the constructor,
     which evaluates.  A node created with evaluate=False that is stored AS IS in the model (not
@@ -195,27 +453,18 @@ def check_canonical_nodes(ctx: Check, tree: Tree) -> None:
         if not q.startswith(builder_mod) or fn.outer is not None:
             continue
         rd = RD(fn.node)
-        for st in walk_function(fn.node):
-            if not (isinstance(st, ast.Assign) and isinstance(st.targets[0], ast.Subscript)):
-                continue
-            base = st.targets[0].value
-            if isinstance(base, ast.Name):  # a local alias `components = self.__ingredients.components`
-                adefs = [d for d in rd.reaching(base) if d.value is not None]
-                if len(adefs) == 1 and isinstance(adefs[0].value, ast.Attribute):
-                    base = adefs[0].value
-            if not (isinstance(base, ast.Attribute) and base.attr in {"components", "amplitudes", "parameter_defaults", "kinematic_variables"}):
-                continue
+        for st, attr, value in _ingredient_stores(fn.node, rd):
             n_stores += 1
-            for origin, consumer in _direct_origins(tree, fn, rd, st.value, 0):
+            for origin, consumer in _direct_origins(tree, fn, rd, value, 0):
                 if isinstance(origin, ast.Call) and any(k.arg == "evaluate" and isinstance(k.value, ast.Constant) and k.value.value is False for k in origin.keywords):
                     made = unparse(origin.func).split(".")[-1]  # Mul / Add / Pow ...
                     if consumer is not None and consumer == made:
                         continue  # Mul(Mul(a, b, evaluate=False), c) flattens: the node does not survive
                     bad += 1
-                    ctx.violation("R-CANONICAL", f"{q}::{base.attr}::unevaluated-node", tree.loc(st),
+                    ctx.violation("R-CANONICAL", f"{q}::{attr}::unevaluated-node", tree.loc(st),
                                   f"{q}: `{unparse(st)[:60]}` stores `{unparse(origin)[:60]}` (evaluate=False) in the model as it is",
                                   "after a pickle round trip the node is rebuilt with evaluation: nested Mul flattened / arguments re-ordered, the loaded model is not equal to the original")
-    if n_stores < 5:
+    if n_stores < 3:
         raise AnalysisError(f"only {n_stores} stores into the model ingredients found (9 confirmed)")
     if not bad:
         ctx.ok("R-CANONICAL", "src/ampform/helicity/__init__.py", f"{n_stores} stores into components / amplitudes / parameter_defaults: none stores a node built with evaluate=False as it is")
@@ -257,48 +506,127 @@ def _direct_origins(tree: Tree, fn: FuncInfo, rd: RD, expr: ast.AST, depth: int,
         return [(expr, consumer)]
     if isinstance(expr, ast.IfExp):
         return _direct_origins(tree, fn, rd, expr.body, depth + 1, consumer) + _direct_origins(tree, fn, rd, expr.orelse, depth + 1, consumer)
+    if isinstance(expr, ast.NamedExpr):
+        return _direct_origins(tree, fn, rd, expr.value, depth + 1, consumer)
     return [(expr, consumer)]
+
+
+# ---------------------------------------------------------------------------- R-REENTRANT
+def _isinstance_tests(test: ast.AST):
+    """(subject text, set of class names) of every ``isinstance(x, K)`` inside a test (and / or / not included)."""
+    for n in ast.walk(test):
+        if isinstance(n, ast.Call) and isinstance(n.func, ast.Name) and n.func.id == "isinstance" and len(n.args) == 2:
+            kinds = n.args[1]
+            yield unparse(n.args[0]), {unparse(k) for k in (kinds.elts if isinstance(kinds, ast.Tuple) else [kinds])}
+
+
+def _stores_tuple(stmts: list[ast.stmt]) -> ast.AST | None:
+    """The first ``sp.Tuple(...)`` construction inside the statements (assigned, appended or returned)."""
+    for st in stmts:
+        for n in ast.walk(st):
+            if isinstance(n, ast.Call) and unparse(n.func) in _TUPLE_NAMES:
+                return n
+    return None
 
 
 def check_reentrant_new(ctx: Check, tree: Tree) -> None:
     """R-REENTRANT: func(*args), pickle, xreplace and subs rebuild a hand-written expression class by
-    calling __new__ on its own stored args.  Where __new__ converts an argument of kind K
+    calling __new__ on its own stored args.  Where __new__ (or a helper it calls) converts an argument of kind K
     (`isinstance(x, K)`) into a SymPy container (sp.Tuple) before storing it, the stored container
-    comes back as input: the same test must accept it (or another branch must), otherwise it falls
+    comes back as input: some isinstance test on the same subject must accept sp.Tuple, otherwise it falls
     into the branch for scalars."""
+    from ..rules import reach_functions
+
     hw = handwritten_expr_classes(tree)
     n = 0
     for q, cls in sorted(hw.items()):
         new = cls.methods.get("__new__")
         if new is None:
             continue
-        for node in walk_function(new.node):
-            if not isinstance(node, ast.If):
+        for fn, _path in reach_functions(tree, new, depth=2):
+            if fn is not new and not fn.qual.startswith(cls.module.name + "::"):
                 continue
-            test, kind_branch, other_branch = node.test, node.body, node.orelse
-            while isinstance(test, ast.UnaryOp) and isinstance(test.op, ast.Not):  # `if not isinstance(..): <other> else: <kind>`
-                test, kind_branch, other_branch = test.operand, other_branch, kind_branch
-            if not (isinstance(test, ast.Call) and unparse(test.func) == "isinstance" and len(test.args) == 2):
-                continue
-            subject = unparse(test.args[0])
-            kinds = test.args[1]
-            kind_names = {unparse(k) for k in (kinds.elts if isinstance(kinds, ast.Tuple) else [kinds])}
-            stored = None
-            for st in kind_branch:
-                if isinstance(st, ast.Assign) and isinstance(st.value, ast.Call) and unparse(st.value.func) in {"sp.Tuple", "Tuple", "sympy.Tuple"}:
-                    stored = st
-            if stored is None:
-                continue
-            n += 1
-            accepts = bool(kind_names & {"sp.Tuple", "Tuple", "sympy.Tuple"}) or any(
-                isinstance(o, ast.If) and isinstance(o.test, ast.Call) and unparse(o.test.func) == "isinstance" and unparse(o.test.args[0]) == subject
-                and {"sp.Tuple", "Tuple", "sympy.Tuple"} & {unparse(k) for k in (o.test.args[1].elts if isinstance(o.test.args[1], ast.Tuple) else [o.test.args[1]])}
-                for o in other_branch)
-            ctx.verdict(accepts, "R-REENTRANT", f"{q}.__new__::isinstance({subject}, {sorted(kind_names)})", tree.loc(node),
-                        f"{cls.name}.__new__: `{subject}` of kind {sorted(kind_names)} is stored as `{unparse(stored.value)[:40]}`; the stored sp.Tuple is accepted by the same dispatch when the instance is rebuilt from its args",
-                        None if accepts else "the stored sp.Tuple re-enters the branch for scalar indices: with a parent of known shape `-axis_size <= idx` raises TypeError - func(*args), pickle.loads, xreplace and subs of such a slice fail")
+            # every isinstance dispatch of the function: subject -> all kinds that some test names
+            accepted: dict[str, set[str]] = {}
+            for node in walk_function(fn.node):
+                if isinstance(node, (ast.If, ast.IfExp, ast.While)):
+                    for subject, kinds in _isinstance_tests(node.test):
+                        accepted.setdefault(subject, set()).update(kinds)
+            for node in walk_function(fn.node):
+                if not isinstance(node, ast.If):
+                    continue
+                tests = list(_isinstance_tests(node.test))
+                if not tests or len({s for s, _ in tests}) != 1:
+                    continue
+                subject, kind_names = tests[0][0], set().union(*[k for _, k in tests])
+                test, kind_branch = node.test, node.body
+                while isinstance(test, ast.UnaryOp) and isinstance(test.op, ast.Not):  # `if not isinstance(..): <other> else: <kind>`
+                    test, kind_branch = test.operand, (node.orelse if kind_branch is node.body else node.body)
+                is_call = lambda t: isinstance(t, ast.Call) and unparse(t.func) == "isinstance"  # noqa: E731
+                if not (is_call(test) or (isinstance(test, ast.BoolOp) and isinstance(test.op, ast.Or) and all(is_call(v) for v in test.values))):
+                    continue  # (a conjunction with other conditions: the branch is not "the branch for kind K")
+                stored = _stores_tuple(kind_branch)
+                if stored is None:
+                    continue
+                n += 1
+                accepts = bool(accepted.get(subject, set()) & _TUPLE_NAMES)
+                where_fn = f"{q}.__new__" if fn is new else fn.qual
+                ctx.verdict(accepts, "R-REENTRANT", f"{where_fn}::isinstance({subject}, {sorted(kind_names - _TUPLE_NAMES)})", tree.loc(node),
+                            f"{cls.name}.__new__: `{subject}` of kind {sorted(kind_names)} is stored as `{unparse(stored)[:40]}`; the stored sp.Tuple is accepted by the same dispatch when the instance is rebuilt from its args",
+                            None if accepts else "the stored sp.Tuple re-enters the branch for scalar indices: with a parent of known shape `-axis_size <= idx` raises TypeError - func(*args), pickle.loads, xreplace and subs of such a slice fail")
     if n == 0:
         ctx.info("R-REENTRANT", "src/ampform/sympy/_array_expressions.py", "no __new__ converts an argument kind into a stored SymPy container")
+
+
+# ---------------------------------------------------------------------------- deprecated base class
+def check_deprecated_getnewargs(ctx: Check, tree: Tree) -> None:
+    """R-NEWARGS (deprecated UnevaluatedExpression): ``__getnewargs_ex__`` returns ``(tuple(self.args), {"name": self._name})`` -
+    pickle calls ``cls.__new__(cls, *args, **kwargs)`` with it; the name must travel whatever the signature of the
+    subclass's own ``__new__`` (the documented pattern ``__new__(cls, x, y, **hints)`` takes it through ``**hints``).
+    Decided by interpreting the hook on model instances of the base class and of two subclasses."""
+    dep = tree.cls("ampform.sympy.deprecated::UnevaluatedExpression")
+    gna = tree.lookup_method(dep, "__getnewargs_ex__")
+    new = tree.lookup_method(dep, "__new__")
+    if gna is None or new is None:
+        raise AnalysisError("vanished anchor: UnevaluatedExpression.__new__/__getnewargs_ex__")
+    kwonly = {a.arg for a in new.node.args.kwonlyargs}
+    Instance = object_exec(tree).Instance
+    problems = []
+    n = 0
+    subclasses = [
+        ("the base class itself", None),
+        ("a subclass with __new__(cls, x, y, n, **hints) (the documented pattern: create_expression(cls, x, y, n, **hints))", [("cls", "pos"), ("x", "pos"), ("y", "pos"), ("n", "pos"), ("hints", "kw")]),
+        ("a subclass with __new__(cls, *args, name=None, **hints)", [("cls", "pos"), ("args", "var"), ("name", "kwonly"), ("hints", "kw")]),
+    ]
+    for label, signature in subclasses:
+        for the_name in (MObj("the name", open=False), None):
+            args = (MObj("arg x", kinds={"expr"}, open=False), MObj("arg y", kinds={"expr"}, open=False))
+            me = Instance("self", dep, {"args": args, "_args": args, "_name": the_name}, kinds={dep.qual, dep.name, "sympy.Expr", "expr"}, open=False)
+            if signature is not None:
+                me.attrs["__class__"] = MObj("class MyExpression(UnevaluatedExpression)", {"__name__": "MyExpression", "__new__": MObj("MyExpression.__new__", {"__signature__": signature}, kinds={"function"}, open=False)},
+                                             kinds={"class"}, open=False)
+            ex = object_exec(tree)
+            got = _interpret("__getnewargs_ex__", lambda ex=ex, me=me: ex.call_function(gna, [me], {}))
+            n += 1
+            if not (isinstance(got, tuple) and len(got) == 2 and got[0] != "raises" and isinstance(got[0], (tuple, list)) and isinstance(got[1], dict)):
+                problems.append(f"{label}: returns {got!r}, not a pair (args, kwargs)")
+                continue
+            a, kw = got
+            if not (len(a) == len(args) and all(x is y for x, y in zip(a, args))):
+                problems.append(f"{label}: the positional part {tuple(a)!r} is not self.args")
+            defaults = {a.arg: d for a, d in zip(new.node.args.kwonlyargs, new.node.args.kw_defaults)}
+            missing = sorted(k for k in kwonly - {"hints"} if k not in kw
+                             and not (k == "name" and the_name is None and isinstance(defaults.get(k), ast.Constant) and defaults[k].value is None))  # name=None is the default: may be left out
+            if missing:
+                problems.append(f"{label}: the keyword part {sorted(kw)} lacks {missing}")
+            elif "name" in kw and kw["name"] is not the_name:
+                problems.append(f"{label}: the keyword part carries name={kw['name']!r}, not self._name")
+            extra = sorted(k for k in kw if k not in kwonly)
+            if extra and new.node.args.kwarg is None:
+                problems.append(f"{label}: the keyword part has {extra}, which __new__ does not accept")
+    ctx.verdict(not problems, "R-NEWARGS", f"{dep.qual}::__getnewargs_ex__", tree.loc(gna.node),
+                f"UnevaluatedExpression.__getnewargs_ex__ returns (self.args, {{'name': self._name}}) for __new__(*args, {sorted(kwonly)}) on {n} model instances",
+                {"problems": problems[:3], "why": "missing keyword state or args not self.args: the loaded object differs from the dumped one"} if problems else None)
 
 
 def run(ctx: Check, tree: Tree) -> None:
@@ -315,40 +643,51 @@ def run(ctx: Check, tree: Tree) -> None:
         "pickle protocol 2+: object.__reduce_ex__ calls cls.__new__(cls, *obj.__getnewargs__()) and restores __dict__/slots state",
         "sympy.Basic.__getnewargs__ returns self.args",
     ]
-    from ..exprmodel import installed_hooks
-
-    hooks = installed_hooks(tree)
-    if "__getnewargs__" in hooks:
-        ctx.section(check_shallow_hooks, ctx, tree, ["__getnewargs__"], need_complete=True)
-    else:
-        ctx.section(check_state_hook, ctx, tree, hooks)
+    table = ctx.section(installed_by_model, tree)
+    if table is not None:
+        if "__getnewargs__" in table:
+            ctx.section(check_shallow_hooks, ctx, tree, ["__getnewargs__"], need_complete=True)
+        else:
+            ctx.section(check_state_hook, ctx, tree)
     ctx.section(check_attribute_identity, ctx, tree)
     ctx.section(check_toplevel_classes, ctx, tree)
     ctx.section(check_canonical_nodes, ctx, tree)
     ctx.section(check_reentrant_new, ctx, tree)
+    ctx.section(check_handwritten_newargs, ctx, tree)
+    ctx.section(check_deprecated_getnewargs, ctx, tree)
+    ctx.section(check_model_pickle_hooks, ctx, tree)
+    ctx.section(check_converters_idempotent, ctx, tree)
 
-    # ---- hand-written classes
+
+def check_handwritten_newargs(ctx: Check, tree: Tree) -> None:
+    """R-NEWARGS: a hand-written expression class is rebuilt by pickle as ``cls.__new__(cls, *self.args)``: the args
+    created in ``__new__`` must be valid positional input to the same ``__new__`` (or the class defines pickle hooks)."""
     hw = handwritten_expr_classes(tree)
     ctx.stats["handwritten_expr_classes"] = sorted(hw)
     n = 0
+    undecided = []
     for q, cls in sorted(hw.items()):
         new = cls.methods.get("__new__")
         if new is None:
             continue
         n += 1
         own_hooks = PICKLE_HOOKS & set(cls.methods)
-        arity = new_args_arity(tree, new)
         key = f"{q}::__new__"
         if own_hooks:
             ctx.ok("R-NEWARGS", tree.loc(new.node), f"{cls.name} defines {sorted(own_hooks)}")
             continue
+        arity = new_args_arity(tree, new)
         if arity is None:
             # __new__ that does not go through sp.Expr.__new__ (object.__new__ + _args)
             uses_args = any(isinstance(x, ast.Attribute) and x.attr == "_args" for x in walk_function(new.node))
             if uses_args and new.node.args.vararg is not None:
                 ctx.ok("R-NEWARGS", tree.loc(new.node), f"{cls.name}.__new__(*args) stores args verbatim")
                 continue
-            raise AnalysisError(f"{q}.__new__: cannot determine the arity of self.args")
+            undecided.append(f"{q}.__new__: cannot determine the arity of self.args")
+            continue
+        if isinstance(arity, str):
+            undecided.append(f"{q}.__new__: {arity}")
+            continue
         problem = signature_accepts(new, *arity)
         ctx.verdict(
             problem is None,
@@ -358,59 +697,39 @@ def run(ctx: Check, tree: Tree) -> None:
             f"{cls.name}.__new__{unparse(new.node.args)[:60]} creates args of arity {arity[0]}{'+' if arity[1] else ''}",
             problem,
         )
-    if n < 6:
+    if undecided:
+        raise AnalysisError("; ".join(undecided[:3]))
+    if n < 4:
         raise AnalysisError(f"only {n} hand-written expression classes with __new__ found (confirmed 8)")
 
-    # ---- deprecated base class
-    dep = tree.cls("ampform.sympy.deprecated::UnevaluatedExpression")
-    gna = dep.methods.get("__getnewargs_ex__")
-    new = dep.methods.get("__new__")
-    if gna is None or new is None:
-        raise AnalysisError("vanished anchor: UnevaluatedExpression.__new__/__getnewargs_ex__")
-    kwonly = {a.arg for a in new.node.args.kwonlyargs}
-    keys: set[str] = set()
-    rd = RD(gna.node)
-    ok_args = False
-    for ret, _ in rd.returns:
-        if isinstance(ret.value, ast.Tuple) and len(ret.value.elts) == 2:
-            a0, a1 = ret.value.elts
-            for d in rd.closure(rd.uses(a1)):
-                if isinstance(d.value, ast.Dict):
-                    keys |= {k.value for k in d.value.keys if isinstance(k, ast.Constant)}
-            if isinstance(a1, ast.Dict):
-                keys |= {k.value for k in a1.keys if isinstance(k, ast.Constant)}
-            txt = unparse(a0) + "".join(unparse(d.value) for d in rd.closure(rd.uses(a0)) if d.value is not None)
-            ok_args = "self.args" in txt
-    missing = kwonly - keys - {"hints"}
-    ctx.verdict(
-        ok_args and not missing and keys <= kwonly,
-        "R-NEWARGS",
-        f"{dep.qual}::__getnewargs_ex__",
-        tree.loc(gna.node),
-        f"UnevaluatedExpression.__getnewargs_ex__ returns (self.args, {sorted(keys)}) for __new__(*args, {sorted(kwonly)})",
-        None if ok_args and not missing else f"missing keyword state {sorted(missing)} or args not self.args",
-    )
 
-    # ---- model classes
+def check_model_pickle_hooks(ctx: Check, tree: Tree) -> None:
+    """R-MODEL-PICKLE: HelicityModel / ParameterValues rely on the default state transfer of attrs/pickle (all fields).  A
+    custom pickle hook is outside the rule's model of that transfer: the check then cannot decide (ANALYSIS-ERROR)."""
+    undecided = []
     for q in ("ampform.helicity::HelicityModel", "ampform.helicity::ParameterValues"):
         cls = tree.cls(q)
-        own = PICKLE_HOOKS & set(cls.methods)
-        ctx.verdict(
-            not own,
-            "R-MODEL-PICKLE",
-            f"{q}::pickle-hooks",
-            tree.loc(cls.node),
-            f"{cls.name} defines no custom pickle hooks (default attrs/pickle state transfer of all fields)",
-            f"custom hooks {sorted(own)} are outside the rule's grammar" if own else None,
-        )
-    ctx.section(check_converters_idempotent, ctx, tree)
+        own = sorted(PICKLE_HOOKS & {m for c in tree.mro(cls) for m in c.methods})
+        if own:
+            undecided.append(f"{q} defines custom pickle hooks {own}: which state travels is outside the rule's grammar")
+        else:
+            ctx.ok("R-MODEL-PICKLE", tree.loc(cls.node), f"{cls.name} defines no custom pickle hooks (default attrs/pickle state transfer of all fields)")
+    if undecided:
+        raise AnalysisError("; ".join(undecided))
+
+
+_MAPPING_WORDS = ("Mapping", "dict", "Dict", "OrderedDict")
 
 
 def check_converters_idempotent(ctx: Check, tree: Tree) -> None:
     """Every attrs converter of HelicityModel accepts the type it produces (an
-    ``attrs.evolve`` / user re-construction feeds converter output back in)."""
+    ``attrs.evolve`` / user re-construction feeds converter output back in).  Read from the declared contract: the
+    converter takes a Mapping and returns a Mapping (a dict / OrderedDict or a class of the package that derives
+    from Mapping).  A converter without such a contract is interpreted twice on a model mapping; what cannot be
+    interpreted is undecided."""
     cls = tree.cls("ampform.helicity::HelicityModel")
     n = 0
+    undecided = []
     for st in cls.node.body:
         if not (isinstance(st, ast.AnnAssign) and isinstance(st.value, ast.Call)):
             continue
@@ -419,21 +738,57 @@ def check_converters_idempotent(ctx: Check, tree: Tree) -> None:
             continue
         n += 1
         target = tree.resolve(cls.module, conv)
-        if target in tree.funcs:
-            fn = tree.funcs[target]
-            # converter must be total on mappings: parameter annotated Mapping / no isinstance-raise on its own output
-            ann = unparse(fn.node.args.args[0].annotation) if fn.node.args.args and fn.node.args.args[0].annotation else ""
-            ret = unparse(fn.node.returns) if fn.node.returns else ""
-            ok = "Mapping" in ann or "dict" in ann.lower() or ann == ""
-            ctx.verdict(
-                ok,
-                "R-CONVERTER",
-                f"{cls.qual}::{st.target.id}::converter",
-                tree.loc(st),
-                f"HelicityModel.{st.target.id}: converter {fn.name}({ann}) -> {ret}",
-                None if ok else "converter does not accept a mapping (its own output)",
-            )
-        else:
+        key = f"{cls.qual}::{st.target.id}::converter"
+        if target in tree.classes:
+            c = tree.classes[target]
+            is_mapping = any(b.split("[")[0].split(".")[-1] in {"Mapping", "MutableMapping", "dict", "OrderedDict", "UserDict"} for b in tree.external_bases(c))
+            if is_mapping:
+                ctx.ok("R-CONVERTER", tree.loc(st), f"HelicityModel.{st.target.id}: converter {c.name} (a Mapping class constructed from a mapping)")
+            else:
+                undecided.append(f"HelicityModel.{st.target.id}: converter {c.name} is a class that is not a Mapping")
+            continue
+        if target not in tree.funcs:
             ctx.ok("R-CONVERTER", tree.loc(st), f"HelicityModel.{st.target.id}: converter {unparse(conv)} (external)")
+            continue
+        fn = tree.funcs[target]
+        params = fn.node.args.args
+        ann = unparse(params[0].annotation) if params and params[0].annotation is not None else ""
+        ret = unparse(fn.node.returns) if fn.node.returns is not None else ""
+        takes_mapping = any(w in ann for w in _MAPPING_WORDS)
+        ret_cls = tree.resolve(fn.module, fn.node.returns) if isinstance(fn.node.returns, (ast.Name, ast.Attribute)) else None
+        gives_mapping = any(w in ret for w in _MAPPING_WORDS) or (
+            ret_cls in tree.classes and any(b.split("[")[0].split(".")[-1] in {"Mapping", "MutableMapping", "dict", "OrderedDict", "UserDict"} for b in tree.external_bases(tree.classes[ret_cls])))
+        if takes_mapping and gives_mapping:
+            ctx.ok("R-CONVERTER", tree.loc(st), f"HelicityModel.{st.target.id}: converter {fn.name}({ann}) -> {ret}")
+            continue
+        verdict = _converter_twice(tree, fn)
+        if verdict == "ok":
+            ctx.ok("R-CONVERTER", tree.loc(st), f"HelicityModel.{st.target.id}: converter {fn.name} applied to its own output on a model mapping returns an equal mapping")
+        elif verdict == "raises":
+            ctx.violation("R-CONVERTER", key, tree.loc(st), f"HelicityModel.{st.target.id}: converter {fn.name}({ann}) -> {ret}", "the converter raises when it is applied to its own output (interpreted on a model mapping)")
+        else:
+            undecided.append(f"HelicityModel.{st.target.id}: converter {fn.name}({ann}) -> {ret}: {verdict}")
+    if undecided:
+        raise AnalysisError("; ".join(undecided[:3]))
     if n < 3:
         raise AnalysisError(f"only {n} attrs converters on HelicityModel (confirmed 4)")
+
+
+def _converter_twice(tree: Tree, fn: FuncInfo) -> str:
+    """'ok' / 'raises' / a reason why the converter cannot be interpreted on a model mapping."""
+    keys = [MObj(f"key {name}", {"name": name, "__str__": lambda a, k, name=name: name}, kinds={"expr"}, open=False) for name in ("b_{2}", "a_{10}", "a_{2}")]
+    mapping = {k: MObj(f"value of {k.label}", open=False) for k in keys}
+    ex = object_exec(tree)
+    try:
+        first = ex.run(fn, [mapping])
+    except ModelRaise as exc:
+        return f"raises {exc} on a model mapping"
+    except ModelError as exc:
+        return f"cannot be interpreted ({exc})"
+    try:
+        second = ex.run(fn, [first])
+    except ModelRaise:
+        return "raises"
+    except ModelError as exc:
+        return f"cannot be interpreted on its own output ({exc})"
+    return "ok" if ex.compare(ast.Eq(), first, second, None) else "its second application returns something else"
